@@ -44,6 +44,15 @@ TRUSTED = ['launcher model lean/PlumpyModel/Launcher/Model.lean (hand-written; c
            'persister keys, per-process step trace before and after the reply)',
            'generated tables lean/PlumpyModel/Gen/Launcher.lean (dispatch chain of __call__, keyword signatures, body keys)']
 
+def tok_tag(tok):
+    """protocol token -> tag value: 'none' = no tag, 'E' = the empty string"""
+    return None if tok == 'none' else '' if tok == 'E' else tok
+
+
+def tag_tok(tag):
+    return 'none' if tag is None else 'E' if tag == '' else str(tag)
+
+
 T_FIELDS = ('type', 'ak', 'ident', 'n', 'persist', 'nowait', 'pid', 'tag')
 KNOWN_TYPES = ('launch', 'continue', 'create')
 CLASS_TOKENS = ('Out', 'Raise', 'Steps', 'Wait')
@@ -147,7 +156,7 @@ class Session:
         ks = []
         for cp in self.pers.get_checkpoints():
             p = self.pidx(cp.pid)
-            ks.append((int(p[1:]) if p[1:].isdigit() else 10 ** 9, '-' if cp.tag is None else str(cp.tag)))
+            ks.append((int(p[1:]) if p[1:].isdigit() else 10 ** 9, '-' if cp.tag is None else tag_tok(cp.tag)))
         return sorted(ks)
 
     def probe(self, key):
@@ -157,7 +166,7 @@ class Session:
         n = len(tr)
         registered = dict(self.lp.INSTANCES)
         try:
-            bundle = self.pers.load_checkpoint(self.pids[k], None if tag == '-' else tag)
+            bundle = self.pers.load_checkpoint(self.pids[k], None if tag == '-' else tok_tag(tag))
             proc = bundle.unbundle(self.w['plumpy'].LoadSaveContext(loader=self.lp.make_custom(), loop=self.loop))
             return proc.state.value
         except Exception as e:  # noqa
@@ -206,7 +215,7 @@ class Session:
             if op['pid'] != '~':
                 a[pc.PID_KEY] = self.real_pid(op['pid'])
             if op['tag'] != '~':
-                a[pc.TAG_KEY] = None if op['tag'] == 'none' else op['tag']
+                a[pc.TAG_KEY] = tok_tag(op['tag'])
             body[pc.TASK_ARGS] = a
         return body
 
@@ -243,7 +252,7 @@ class Session:
             p = a[pc.PID_KEY]
             op['pid'] = self.pidx(p) if p in self.pids else '?'
         if pc.TAG_KEY in a:
-            op['tag'] = 'none' if a[pc.TAG_KEY] is None else str(a[pc.TAG_KEY])
+            op['tag'] = tag_tok(a[pc.TAG_KEY])
         return op
 
     # -- the observed launcher: exactly `await launcher(communicator, task)` plus bookkeeping around it
@@ -306,7 +315,7 @@ class Session:
                 await p.step()
                 done += 1
             if self.pers is not None:
-                self.pers.save_checkpoint(p, tag=None if tag == 'none' else tag)
+                self.pers.save_checkpoint(p, tag=tok_tag(tag))
             saves.append((tag if tag != 'none' else '-', done, p.state.value))
         self.scan()
         del lp.TRACE[:]
@@ -416,7 +425,7 @@ def run_case(job):
                 coro = ctl.execute_process(lp.TOKENS[toks[1]], nowait=toks[3] == '1',
                                            loader=lp.make_custom() if toks[4] == 'c' else None, **kw)
             elif toks[0] == 'C':    # C <pid> <tag> <nowait>
-                coro = ctl.continue_process(ss.real_pid(toks[1]), tag=None if toks[2] == 'none' else toks[2], nowait=toks[3] == '1')
+                coro = ctl.continue_process(ss.real_pid(toks[1]), tag=tok_tag(toks[2]), nowait=toks[3] == '1')
             else:                   # R t …   (a raw body put on the task queue)
                 coro = raw(ss.build_body(parse_t(' '.join(toks[1:]))))
             result, exc = None, None
@@ -676,7 +685,7 @@ def mk(type_='~', ak='A', ident='~', n='~', persist='~', nowait='~', pid='~', ta
 
 
 IDENTS = ['d.Out', 'd.Raise', 'd.Steps', 'd.Wait', 'd.Bad', 'd.Alt', 'a.Out', 'a.Steps', 'a.Raise', 'u.x']
-TAGS = ['none', 't1', 't2']
+TAGS = ['none', 't1', 't2', 'E']      # 'E' stands for the empty string: a legal tag, distinct from no tag
 
 
 def systematic(configs):
@@ -712,6 +721,14 @@ def systematic(configs):
                         h.append(mk('continue', pid='?', nowait=w, tag='t1'))
                         h.append(mk('continue', pid='#1', nowait=w, tag='none'))
                         cases.append((pers, loader, 'direct', h))
+        # the empty string is a legal tag of its own: a checkpoint under '' next to the untagged one (either order)
+        for cls, total in (('Steps', 4), ('Wait', 4)):
+            for j1, j2 in ((0, 2), (1, 3), (2, 2)):
+                for order in (('E', 'none'), ('none', 'E')):
+                    h = [f'ckpt {cls} 5 {j1} {order[0]} {j2} {order[1]}']
+                    for tg in ('none', 'E', '~', 't1'):
+                        h.append(mk('continue', pid='#0', nowait='0', tag=tg))
+                    cases.append((pers, loader, 'direct', h))
         # a waiting process killed / resumed while the launcher awaits it (nowait=0) or after the reply (nowait=1)
         for act in ('kill', 'resume'):
             for w in '01':
